@@ -171,6 +171,12 @@ impl PidTracking {
         ]);
         let max_slots = u32::from_le_bytes([data[24], data[25], data[26], data[27]]);
 
+        // `max_slots` is read from the mapping: clamp it to the slots the region has
+        // room for (4 bytes of PID + 4 bytes of mode each), so that a corrupt value
+        // cannot size the arrays below and the state stays self-consistent
+        let room = (data.len() - PID_TRACKING_HEADER_SIZE) / 8;
+        let max_slots = max_slots.min(u32::try_from(room).unwrap_or(u32::MAX));
+
         let slot_count = max_slots as usize;
         let pids_start = PID_TRACKING_HEADER_SIZE;
         let modes_start = pids_start + slot_count * 4;
